@@ -56,16 +56,15 @@ def expectedStopped : SendHalf → Option (Option Nat)
   | .gone => none
   | .ready c | .dataSent c | .resetSent c => some c
 
-/-- `write` of `n` bytes: `limit` = connection credit and send-window room, `credit` = stream credit -/
-def expectedWrite (connClosed : Bool) (limit credit n : Nat) : SendHalf → Except WriteErr Nat
-  | .gone => if connClosed then .error .blocked else .error .closedStream
-  | .ready (some c) => if connClosed then .error .blocked else .error (.stopped c)
-  | h =>
-    if connClosed then .error .blocked
-    else if limit = 0 then .error .blocked
-    else match h with
-      | .ready none => if credit = 0 then .error .blocked else .ok (Nat.min n (Nat.min limit credit))
-      | _ => .error .closedStream
+/-- `write` of `n` bytes on an open connection, written from the PROPERTY TEXT (C11: "write ... succeed
+    only while the sending half is open and unstopped, report the peer's STOP_SENDING code once stopped,
+    and report a closed stream after finish, reset or full acknowledgement"): the result is a function
+    of the abstract state of the half alone, except for the accepted amount, for which `room` = what
+    connection-level credit, send window and stream credit allow right now -/
+def expectedWrite (room n : Nat) : SendHalf → Except WriteErr Nat
+  | .ready none => if room = 0 then .error .blocked else .ok (Nat.min n room)
+  | .ready (some c) => .error (.stopped c)
+  | .gone | .dataSent _ | .resetSent _ => .error .closedStream
 
 theorem absSend_getOrInsert {s s1 : State} {id : Nat} {x : Send} (h : s.getOrInsertSend id = some (x, s1)) :
     absSend s id = SendHalf.ofSend x := by
@@ -180,70 +179,82 @@ def streamCredit (s : State) (id : Nat) : Nat :=
   | some (some x) => x.maxData - x.pending.offset
   | _ => s.maxSendData id
 
+/-- on a closing connection every write is `Blocked` and nothing changes (outside the C11 table: the
+    property speaks about stream halves of a live connection) -/
+theorem write_conn_closed {s s' : State} {id n : Nat} {r : Except WriteErr Nat} (h : s.write id n = some (s', r))
+    (hc : s.connClosed = true) : r = .error .blocked ∧ s' = s := by
+  unfold State.write at h
+  simp only [hc, ↓reduceIte, Option.some.injEq, Prod.mk.injEq] at h
+  exact ⟨h.2.symm, h.1.symm⟩
+
 /-- `write` follows the table -/
-theorem write_table {s s' : State} {id n : Nat} {r : Except WriteErr Nat} (h : s.write id n = some (s', r)) :
-    r = expectedWrite s.connClosed (Gen.writeLimit s.maxData s.dataSent s.sendWindow s.unackedData)
-          (streamCredit s id) n (absSend s id) := by
-  by_cases hc : s.connClosed = true
-  · have : r = .error .blocked := by
+theorem write_table {s s' : State} {id n : Nat} {r : Except WriteErr Nat} (h : s.write id n = some (s', r))
+    (hc' : s.connClosed = false) :
+    r = expectedWrite (Nat.min (Gen.writeLimit s.maxData s.dataSent s.sendWindow s.unackedData) (streamCredit s id))
+          n (absSend s id) := by
+  cases hg : s.getOrInsertSend id with
+  | none =>
+    have habs := absSend_gone_iff.mp hg
+    have : r = .error .closedStream := by
       unfold State.write at h
-      simp only [hc, ↓reduceIte, Option.some.injEq, Prod.mk.injEq] at h
-      exact h.2.symm
-    rw [this, hc]; unfold expectedWrite; split <;> simp
-  · have hc' : s.connClosed = false := by simpa using hc
-    cases hg : s.getOrInsertSend id with
-    | none =>
-      have habs := absSend_gone_iff.mp hg
-      have : r = .error .closedStream := by
-        unfold State.write at h
-        simp only [hc', Bool.false_eq_true, ↓reduceIte, hg] at h
-        split at h
-        · contradiction
-        · simp only [Option.some.injEq, Prod.mk.injEq] at h; exact h.2.symm
-      rw [this, habs, hc']; rfl
-    | some v =>
-      obtain ⟨x, s1⟩ := v
-      have habs := absSend_getOrInsert hg
-      obtain ⟨_, _, hor⟩ := getOrInsertSend_spec hg
-      have hcr : streamCredit s id = x.maxData - x.pending.offset := by
-        unfold streamCredit
-        rcases hor with hh | ⟨hh, hx⟩
-        · rw [hh]
-        · rw [hh, hx]; simp [Send.new]
-      rw [habs, hcr, hc']
-      cases r with
-      | ok k =>
-        obtain ⟨x', s0, hg', _, _, hw, hsr, _, hl, hb, hk, _⟩ := write_ok h
-        rw [hg] at hg'
-        simp only [Option.some.injEq, Prod.mk.injEq] at hg'
-        obtain ⟨rfl, rfl⟩ := hg'
+      simp only [hc', Bool.false_eq_true, ↓reduceIte, hg] at h
+      split at h
+      · contradiction
+      · simp only [Option.some.injEq, Prod.mk.injEq] at h; exact h.2.symm
+    rw [this, habs]; rfl
+  | some v =>
+    obtain ⟨x, s1⟩ := v
+    have habs := absSend_getOrInsert hg
+    obtain ⟨_, _, hor⟩ := getOrInsertSend_spec hg
+    have hcr : streamCredit s id = x.maxData - x.pending.offset := by
+      unfold streamCredit
+      rcases hor with hh | ⟨hh, hx⟩
+      · rw [hh]
+      · rw [hh, hx]; simp [Send.new]
+    rw [habs, hcr]
+    -- a half that is not writable is `dataSent` or `resetSent` in the abstraction
+    have hclosed : x.isWritable = false →
+        expectedWrite (Nat.min (Gen.writeLimit s.maxData s.dataSent s.sendWindow s.unackedData)
+          (x.maxData - x.pending.offset)) n (SendHalf.ofSend x) = .error .closedStream := by
+      intro hnw
+      have : x.state ≠ .ready := by simpa [Send.isWritable] using hnw
+      unfold SendHalf.ofSend
+      cases hst : x.state with
+      | ready => exact absurd hst this
+      | dataSent fa => rfl
+      | resetSent => rfl
+    cases r with
+    | ok k =>
+      obtain ⟨x', s0, hg', _, _, hw, hsr, _, hl, hb, hk, _⟩ := write_ok h
+      rw [hg] at hg'
+      simp only [Option.some.injEq, Prod.mk.injEq] at hg'
+      obtain ⟨rfl, rfl⟩ := hg'
+      have hst : x.state = .ready := by simpa [Send.isWritable] using hw
+      have hr0 : ¬ Nat.min (Gen.writeLimit s.maxData s.dataSent s.sendWindow s.unackedData)
+          (x.maxData - x.pending.offset) = 0 := by simp only [natMin_eq]; omega
+      simp [expectedWrite, SendHalf.ofSend, hst, hsr, hr0, hk]
+    | error e =>
+      rcases write_err_cases h hg hc' with ⟨h0, rfl, hsf, hcf⟩ | ⟨hl0, hx⟩ | ⟨c, hsf, rfl⟩ | ⟨hcf, rfl⟩
+      · -- no connection-level room: the half is writable (else the closed test fired) and unstopped
+        have hw : x.isWritable = true := by
+          cases hh : x.isWritable
+          · rw [closedFirst_iff.mpr hh] at hcf; contradiction
+          · rfl
         have hst : x.state = .ready := by simpa [Send.isWritable] using hw
-        have hl0 : ¬ Gen.writeLimit s.maxData s.dataSent s.sendWindow s.unackedData = 0 := by omega
-        have hb0 : ¬ x.maxData - x.pending.offset = 0 := by omega
-        simp [expectedWrite, SendHalf.ofSend, hst, hsr, hl0, hb0, hk]
-      | error e =>
-        rcases write_err_cases h hg hc' with ⟨h0, rfl, hsf⟩ | ⟨hl0, hx⟩ | ⟨c, hsf, rfl⟩
-        · unfold expectedWrite SendHalf.ofSend
+        have hsr : x.stopReason = none := by
           rcases stoppedFirst_none.mp hsf with hnw | hsr
-          · have : x.state ≠ .ready := by simpa [Send.isWritable] using hnw
-            cases hst : x.state with
-            | ready => exact absurd hst this
-            | dataSent fa => simp [h0]
-            | resetSent => simp [h0]
-          · cases x.state <;> simp [h0, hsr]
-        · rcases Send.write_err hx with ⟨hnw, rfl⟩ | ⟨hw, c, hsr, rfl⟩ | ⟨hw, hsr, hb, rfl⟩
-          · have : x.state ≠ .ready := by simpa [Send.isWritable] using hnw
-            unfold expectedWrite SendHalf.ofSend
-            cases hst : x.state with
-            | ready => exact absurd hst this
-            | dataSent fa => simp [hl0]
-            | resetSent => simp [hl0]
-          · have hst : x.state = .ready := by simpa [Send.isWritable] using hw
-            simp [expectedWrite, SendHalf.ofSend, hst, hsr, hl0]
-          · have hst : x.state = .ready := by simpa [Send.isWritable] using hw
-            simp [expectedWrite, SendHalf.ofSend, hst, hsr, hl0, hb]
-        · obtain ⟨hw, hsr⟩ := stoppedFirst_some.mp hsf
-          have hst : x.state = .ready := by simpa [Send.isWritable] using hw
+          · rw [hw] at hnw; contradiction
+          · exact hsr
+        simp [expectedWrite, SendHalf.ofSend, hst, hsr, h0, natMin_eq]
+      · rcases Send.write_err hx with ⟨hnw, rfl⟩ | ⟨hw, c, hsr, rfl⟩ | ⟨hw, hsr, hb, rfl⟩
+        · exact (hclosed hnw).symm
+        · have hst : x.state = .ready := by simpa [Send.isWritable] using hw
           simp [expectedWrite, SendHalf.ofSend, hst, hsr]
+        · have hst : x.state = .ready := by simpa [Send.isWritable] using hw
+          simp [expectedWrite, SendHalf.ofSend, hst, hsr, hb, natMin_eq]
+      · obtain ⟨hw, hsr⟩ := stoppedFirst_some.mp hsf
+        have hst : x.state = .ready := by simpa [Send.isWritable] using hw
+        simp [expectedWrite, SendHalf.ofSend, hst, hsr]
+      · exact (hclosed (closedFirst_iff.mp hcf)).symm
 
 end QM.Streams
